@@ -261,9 +261,11 @@ def match_finding(prop, failure, findings, predicates):
             continue
         if e.get("site") != failure.site:
             continue
+        if e.get("predicate") is None:
+            return e  # site-wide finding
         pred = predicates.get(e.get("predicate"))
         try:
-            if pred is None or pred(failure.case):
+            if pred is not None and pred(failure.case):
                 return e
         except Exception:
             continue
